@@ -19,7 +19,7 @@ package codegen
 //@ pure func tableInv(r *table[E]) bool = !isnil(r) && !isnil(r.rowMap) && !isnil(r.index) && r.maxIndex >= -1 && r.index != r.rowMap && (forall i int :: {has(r.index, i)} has(r.index, i) ==> 0 <= i && i <= r.maxIndex && validOff(r, r.index[i])) && (forall k string :: {has(r.rowMap, k)} has(r.rowMap, k) ==> validOff(r, r.rowMap[k]) && rowKeyOf(storedRow(r, r.rowMap[k])) == k)
 //
 //@ func newTable
-//@   ensures tableInv(result) && fresh(result) && result.maxIndex == -1 && len(result.arr) == 0
+//@   ensures tableInv(result) && fresh(result) && result.maxIndex == -1 && len(result.arr) == 0 && allocated(result.arr)
 //@   ensures forall i int :: !has(result.index, i)
 //@   modifies nothing
 //
@@ -27,7 +27,7 @@ package codegen
 //@   requires tableInv(r) && index > r.maxIndex && len(row) < 2147483647
 //@   requires len(row) == 0 || base(row) != base(r.arr)
 //@   let o = r.index[index]
-//@   ensures tableInv(r) && r.maxIndex == index && has(r.index, index)
+//@   ensures tableInv(r) && r.maxIndex == index && has(r.index, index) && allocated(r.arr)
 //   the row stored for `index` is the row that was passed
 //@   ensures int(r.arr[o]) == len(row) && forall j int :: {row[j]} 0 <= j && j < len(row) ==> r.arr[o + 1 + j] == old(row[j])
 //   other rows are untouched
@@ -77,6 +77,55 @@ package codegen
 //@   loop 0 invariant unchangedOld(elems(int32)) && unchangedOld(fields(context)) && unchangedOld(fields(lr1.Grammar)) && unchangedOld(fields(lr1.Prod)) && unchangedOld(fields(lr1.Rule)) && unchangedOld(elems(*lr1.Prod))
 //@   loop 0 invariant forall k int :: {termCounts[k]} 0 <= k && k <= rangeindex ==> termCounts[k] == int32(len(c.ParserGrammar.Prods[k].Terms))
 //@   loop 0 decreases n - rangeindex
+//
+// ---- the lexer mode table emitter: closure mode_table of EmitLexer (C07, C08, C10) ----------------
+//
+// For every DFA state one row goes into the table at the state's id: the non-greedy flag
+// exactly when the state is accepting and marked, the number of transitions, one
+// (low, high, target) triple per transition, then the state's actions in the order the
+// mode builder left them. The calls into ForEach and SortFunc run the collecting closure
+// and a comparator; what they may write is assumed at the call site.
+//@ pure func ngFlag(s *dfa.State) int = ite(s.Accept && s.NonGreedy, 1, 0)
+//@ pure func actionsOf(s *dfa.State) *mode.Actions = unbox(s.Data, *mode.Actions)
+//@ pure func nActs(s *dfa.State) int = ite(isnil(actionsOf(s)), 0, len(actionsOf(s).Actions))
+//@ pure func actCode(a mode.Action) int = ite(a.Type == mode.ActionPushMode, 1, ite(a.Type == mode.ActionPopMode, 2, ite(a.Type == mode.ActionAccept, 3, ite(a.Type == mode.ActionDiscard, 4, 5))))
+//@ pure func nTrans(s *dfa.State) int = ite(isnil(s.Transitions.nodes), 0, len(s.Transitions.nodes))
+//@ pure func stateOK(c *context, s *dfa.State) bool = !isnil(s) && typeis(s.Data, *mode.Actions) && nTrans(s) >= 0 && nActs(s) >= 0 && 2 + 3 * nTrans(s) + 2 * nActs(s) < 2147483647 && (forall j int :: {actionsOf(s).Actions[j]} 0 <= j && j < nActs(s) ==> 1 <= actionsOf(s).Actions[j].Type && actionsOf(s).Actions[j].Type <= 5 && (actionsOf(s).Actions[j].Type == mode.ActionPushMode ==> has(c.LexerModes, actionsOf(s).Actions[j].Mode) && !isnil(c.LexerModes[actionsOf(s).Actions[j].Mode])))
+//
+//@ func context.EmitLexer$3
+//@   requires !isnil(c) && !isnil(m) && !isnil(m.DFA) && len(m.DFA.States) < 2147483647
+//   the DFA as the mode builder leaves it: ids are positions, Data holds the (possibly nil) action list
+//@   requires forall k int :: {m.DFA.States[k]} 0 <= k && k < len(m.DFA.States) ==> stateOK(c, m.DFA.States[k]) && int(m.DFA.States[k].ID) == k
+//@   skip frame
+//@   let S = m.DFA.States
+//@   let nIn = len(inputs)
+//@   let rowShape = len(row) >= 2 && int(row[0]) == ngFlag(state) && int(row[1]) == nIn && (cap(row) == 0 || fresh(row)) && (len(row) == 0 || base(row) != base(table.arr))
+//@   call table.AddRow 0 requires len(row) == 2 + 3 * nIn + 2 * nActs(state) && int(row[0]) == ngFlag(state) && int(row[1]) == nIn && arg0 == int(state.ID)
+//@   call table.AddRow 0 requires forall j int :: {actionsOf(state).Actions[j]} 0 <= j && j < nActs(state) ==> int(row[2 + 3 * nIn + 2 * j]) == actCode(actionsOf(state).Actions[j])
+//@   call table.AddRow 0 requires forall k int :: {inputs[k]} 0 <= k && k < nIn ==> row[2 + 3 * k] == uint32(inputs[k].B) && row[3 + 3 * k] == uint32(inputs[k].E)
+//   what the collecting closure and the sort may write; the lookup of a collected key succeeds
+//@   call Map.ForEach 0 modifies inputs, elems(rang3.Range)
+//@   call Map.ForEach 0 assume len(inputs) == nTrans(state) && (cap(inputs) == 0 || fresh(inputs))
+//@   call SortFunc 0 modifies inputs[*]
+//@   call SortFunc 0 hint stateOK(c, state) && 2 + 3 * len(inputs) + 2 * nActs(state) < 2147483647
+//@   call Map.Get 0 assume result1 && !isnil(result0)
+//@   let outer = c == old(c) && m == old(m) && unchangedOld(fields(context)) && unchangedOld(fields(mode.Mode)) && unchangedOld(fields(dfa.DFA)) && unchangedOld(fields(dfa.State)) && unchangedOld(elems(*dfa.State)) && unchangedOld(fields(mode.Actions)) && unchangedOld(elems(mode.Action)) && unchangedOld(maps(c.LexerModes))
+//@   call table.String 0 assume true
+//@   loop 0 invariant outer
+//@   loop 0 invariant tableInv(table)
+//@   loop 0 invariant fresh(table) && table.maxIndex == rangeindex
+//@   loop 0 invariant allocated(table.arr)
+//@   loop 1 invariant outer && tableInv(table) && fresh(table) && state == S[table.maxIndex + 1] && allocated(table.arr)
+//@   loop 1 invariant len(row) >= 2 && len(row) == 2 + 3 * (rangeindex + 1)
+//@   loop 1 invariant int(row[0]) == ngFlag(state)
+//@   loop 1 invariant int(row[1]) == nIn
+//@   loop 1 invariant (cap(row) == 0 || fresh(row)) && (len(row) == 0 || base(row) != base(table.arr))
+//@   loop 1 invariant nIn == nTrans(state)
+//@   loop 1 invariant forall k int :: {inputs[k]} 0 <= k && k <= rangeindex ==> row[2 + 3 * k] == uint32(inputs[k].B) && row[3 + 3 * k] == uint32(inputs[k].E)
+//@   loop 2 invariant outer && tableInv(table) && fresh(table) && state == S[table.maxIndex + 1] && allocated(table.arr) && actions == actionsOf(state) && !isnil(actions)
+//@   loop 2 invariant rowShape && len(row) == 2 + 3 * nIn + 2 * (rangeindex + 1) && nIn == nTrans(state)
+//@   loop 2 invariant forall k int :: {inputs[k]} 0 <= k && k < nIn ==> row[2 + 3 * k] == uint32(inputs[k].B) && row[3 + 3 * k] == uint32(inputs[k].E)
+//@   loop 2 invariant forall j int :: {actions.Actions[j]} 0 <= j && j <= rangeindex ==> int(row[2 + 3 * nIn + 2 * j]) == actCode(actions.Actions[j])
 //
 // ---- action binding (C06) --------------------------------------------------------------
 //
